@@ -399,7 +399,12 @@ impl<'a> Searcher<'a> {
         }
         
         #[cfg(fselect_verif)]
-        crate::verif::emit("done", &[]);
+        crate::verif::emit("done", &[
+            ("buffered", self.is_buffered().to_string()),
+            ("aggregate", self.has_aggregate_column().to_string()),
+            ("grouped", (!self.query.grouping_fields.is_empty()).to_string()),
+            ("limit", self.query.limit.to_string()),
+        ]);
 
         let compute_time = std::time::Instant::now();
 
@@ -547,6 +552,8 @@ impl<'a> Searcher<'a> {
                         return Ok(());
                     }
                 }
+                #[cfg(fselect_verif)]
+                crate::verif::emit("piece", &[]);
                 if let Err(e) = write!(std::io::stdout(), "{}", piece) {
                     if e.kind() == ErrorKind::BrokenPipe {
                         return Ok(());
@@ -1880,6 +1887,9 @@ impl<'a> Searcher<'a> {
         }
 
         self.found += 1;
+
+        #[cfg(fselect_verif)]
+        crate::verif::emit("accept", &[("buffered", self.is_buffered().to_string())]);
 
         let mut file_map = HashMap::new();
 
